@@ -19,6 +19,7 @@ type c10Cfg struct {
 	OOOMs   int64 `json:"ooo_ms"`
 	Keys    int   `json:"keys"`
 	MaxL    int   `json:"max_len"`
+	GapMs   int64 `json:"gap_ms,omitempty"` // the second half of the arrivals (and the sentinel) lies this much later in event time
 	Block   bool  `json:"block_slow_consumer,omitempty"` // strategy block without timeout, window output buffer of 1, sink taking 20 ms per batch
 }
 
@@ -47,6 +48,8 @@ func c10Configs(tier string) []c10Cfg {
 		}
 	}
 	out = append(out, c10Cfg{Timeout: 2000, OOOMs: 0, Keys: 2, MaxL: maxL - 1, Block: true})
+	// a source that stays silent for more than a day of event time (all of it far behind the clock)
+	out = append(out, c10Cfg{Timeout: 2000, OOOMs: 0, Keys: 2, MaxL: maxL - 1, GapMs: 36 * 3600 * 1000}, c10Cfg{Timeout: 2000, OOOMs: 3000, Keys: 1, MaxL: maxL, GapMs: 36 * 3600 * 1000})
 	return out
 }
 
@@ -72,9 +75,13 @@ func c10Events(c c10Cfg, tsIdx []int, keyBits int) []ref.Event {
 		if c.Keys > 1 && keyBits>>uint(i)&1 == 1 {
 			k = "b"
 		}
-		evs = append(evs, ref.Event{ID: i + 1, Key: k, TS: c10Times[x]})
+		ts := c10Times[x]
+		if c.GapMs > 0 && i >= (len(tsIdx)+1)/2 {
+			ts += c.GapMs
+		}
+		evs = append(evs, ref.Event{ID: i + 1, Key: k, TS: ts})
 	}
-	evs = append(evs, ref.Event{ID: 99, Key: "zz", TS: 500000})
+	evs = append(evs, ref.Event{ID: 99, Key: "zz", TS: 500000 + c.GapMs})
 	return evs
 }
 
